@@ -1,6 +1,7 @@
 package checks
 
 import (
+	"bytes"
 	"fmt"
 	"runtime"
 	"sort"
@@ -186,7 +187,18 @@ func (c *C14) Run(x *engine.Ctx) *engine.Violation {
 				cyc = t.Draw(w.Cycles) // requests also in later start/stop cycles on the same addresses
 			}
 			cc := &service.ClientConn{Addr: service.ProverAddr, Reqs: []*service.Request{r}, Frag: t.Draw(4), StartStep: 60 + t.Draw(120), Cycle: cyc}
-			if t.Chance(1, 4) {
+			if i == 0 && w.StopAfterBegun >= 0 && t.Chance(1, 4) {
+				// a slow uploader across the stop: the request is accepted (headers in, handler reading the body),
+				// the client stalls, the stop is requested while everything is quiet, 6..12 s of simulated time pass
+				// with Shutdown polling, then the rest of the body arrives. The statement promises this request its
+				// full response however long its progress takes.
+				if head := bytes.Index(r.Raw, []byte("\r\n\r\n")) + 4; head >= 4 && len(r.Raw)-head >= 2 {
+					cc.FreezeAt = head + t.Draw(len(r.Raw)-head-1)
+					w.ThawAfter = 6 + t.Draw(7)
+					sim.MaxSteps += 800
+					x.S.Count("fault:net/slow-uploader-stalled-across-the-stop")
+				}
+			} else if t.Chance(1, 4) {
 				// history: a client that gives up (resets its connection) after its request was delivered, at a
 				// tape-chosen moment before the response - typically while the handler is parked mid-proof.
 				// Nothing is owed to that client any more; every later stop must still complete.
